@@ -1003,6 +1003,11 @@ static a_pid_fuzzy *fz_ctx_new(fz_t const *f, lim_t const *l, void **bf)
     a_pid_fuzzy_set_rule(c, f->n, f->pe.flat, f->pec.flat, f->mk[0], f->mk[1], f->mk[2]);
     a_pid_fuzzy_set_kpid(c, f->base[0], f->base[1], f->base[2]);
     a_pid_fuzzy_set_bfuzz(c, *bf, f->nfuzz);
+    VF_COUNT("fuzzy-bfuzz-getter");
+    if (a_pid_fuzzy_bfuzz(c) != *bf || c->nfuzz != f->nfuzz)
+    {
+        vf_viol("pid_fuzzy/bfuzz-getter-ne-block-set", "a_pid_fuzzy_set_bfuzz(%p, %u) then a_pid_fuzzy_bfuzz() = %p, nfuzz = %u", *bf, f->nfuzz, a_pid_fuzzy_bfuzz(c), c->nfuzz);
+    }
     a_pid_fuzzy_init(c);
     return c;
 }
